@@ -37,6 +37,7 @@ type CutSpec struct {
 type LoopSpec struct {
 	Invariants []SpecExpr
 	Modifies   []SpecExpr
+	Peel       int // number of leading iterations executed concretely before the invariant takes over
 }
 
 type FuncContract struct {
@@ -45,6 +46,7 @@ type FuncContract struct {
 	Params   []string
 	Alias    []AliasPattern
 	Requires []SpecExpr
+	Cases    []SpecExpr // requires-cases: the disjunction is required; the body is verified once per case
 	Ensures  []SpecExpr
 	Modifies []SpecExpr
 	HasMod   bool
@@ -177,7 +179,7 @@ var reClass = regexp.MustCompile(`^class\s+([A-Za-z0-9_]+)\s*=\s*\[(.*)\]\s*$`)
 var reUfun = regexp.MustCompile(`^ufun\s+([A-Za-z0-9_]+)\s*\(([^)]*)\)\s*([A-Za-z0-9_]+)\s*$`)
 var reAxiom = regexp.MustCompile(`^(axiom|lemma)\s+([A-Za-z0-9_\-]+)(\s*\[[A-Za-z0-9_,\- ]+\])?\s*:\s*(.*)$`)
 var reCut = regexp.MustCompile(`^cut\s+call#([0-9]+)\s+havoc\s+([^:]*):\s*(.*)$`)
-var reLoop = regexp.MustCompile(`^loop#([0-9]+)\s+(invariant|modifies)\s+(.*)$`)
+var reLoop = regexp.MustCompile(`^loop#([0-9]+)\s+(invariant|modifies|peel)\s+(.*)$`)
 
 func sortOf(s string) Sort {
 	switch s {
@@ -325,6 +327,14 @@ func ParseContracts(file, pkg string, configOK func(pred string) bool) (*PkgCont
 			} else {
 				cur.Ensures = append(cur.Ensures, e)
 			}
+		case kw == "cases":
+			for _, p := range strings.Split(rest, " | ") {
+				e, err := parseSpecExpr(p, line)
+				if err != nil {
+					return nil, err
+				}
+				cur.Cases = append(cur.Cases, e)
+			}
 		case kw == "modifies":
 			cur.HasMod = true
 			if rest != "nothing" {
@@ -414,7 +424,9 @@ func ParseContracts(file, pkg string, configOK func(pred string) bool) (*PkgCont
 				ls = &LoopSpec{}
 				cur.Loops[n] = ls
 			}
-			if m[2] == "invariant" {
+			if m[2] == "peel" {
+				ls.Peel, _ = strconv.Atoi(strings.TrimSpace(m[3]))
+			} else if m[2] == "invariant" {
 				e, err := parseSpecExpr(m[3], line)
 				if err != nil {
 					return nil, err
